@@ -35,7 +35,9 @@ fn strip_terminator(l: &str) -> &str {
 
 fn decode_value(entry_text: &str, name: &str) -> String {
     // strip "name:" then per line strip leading spaces/tabs and the terminator
-    let rest = &entry_text[name.len() + 1..];
+    // the colon may be separated from the name by blanks
+    let colon = entry_text.find(':').unwrap_or(name.len());
+    let rest = &entry_text[colon + 1..];
     let mut lines = Vec::new();
     for l in lines_inclusive(rest) {
         let l = strip_terminator(l);
@@ -97,7 +99,7 @@ pub fn segment(text: &str) -> Option<Vec<Top>> {
             }
         } else {
             let colon = body.find(':')?;
-            let name = &body[..colon];
+            let name = body[..colon].trim_end_matches([' ', '\t']);
             if name.is_empty() || name.starts_with('-') || !name.chars().all(|c| c.is_ascii_graphic()) {
                 return None;
             }
